@@ -678,6 +678,35 @@ func c16FunctionTable(c *Ctx, dl *ssa.Function) {
 				}
 			}
 		})
+		// a package-level table filled by the package initialiser and assigned nowhere else
+		if u, ok := Strip(fnMap).(*ssa.UnOp); ok && u.Op == token.MUL {
+			if g, isG := u.X.(*ssa.Global); isG && g.Pkg != nil {
+				writtenElsewhere := false
+				for _, h := range PkgFuncs(g.Pkg) {
+					isInit := h.Name() == "init" && h.Parent() == nil
+					EachInstr(h, func(in ssa.Instruction) {
+						st, isSt := in.(*ssa.Store)
+						if !isSt || st.Addr != ssa.Value(g) {
+							return
+						}
+						if !isInit {
+							writtenElsewhere = true
+							return
+						}
+						EachInstr(h, func(i2 ssa.Instruction) {
+							if mu, ok := i2.(*ssa.MapUpdate); ok && sameRoots(mu.Map, st.Val) {
+								if k, isS := ConstString(mu.Key); isS {
+									keys[k] = true
+								}
+							}
+						})
+					})
+				}
+				if writtenElsewhere {
+					keys = map[string]bool{}
+				}
+			}
+		}
 	}
 	okRet := fnMap != nil
 	EachInstr(bctx, func(in ssa.Instruction) {
